@@ -321,3 +321,45 @@ func ReadNAppend(r *bufio.Reader, n int) ([]string, error) {
 	}
 	return out, nil
 }
+
+// want:DI.COUNTER the fourth item is stored before the count is checked.
+func ThreeItemsBad(r *bufio.Reader) ([3]string, error) {
+	var items [3]string
+	n := 0
+	for {
+		line, err := r.ReadString('\n')
+		if err != nil {
+			return items, err
+		}
+		if line == "end\n" {
+			break
+		}
+		items[n] = line
+		n++
+	}
+	if n != 3 {
+		return items, errors.New("expected three items")
+	}
+	return items, nil
+}
+
+// clean:DI.COUNTER
+func ThreeItemsGood(r *bufio.Reader) ([3]string, error) {
+	var items [3]string
+	n := 0
+	for {
+		line, err := r.ReadString('\n')
+		if err != nil {
+			return items, err
+		}
+		if line == "end\n" {
+			break
+		}
+		if n == 3 {
+			return items, errors.New("more than three items")
+		}
+		items[n] = line
+		n++
+	}
+	return items, nil
+}
